@@ -295,6 +295,28 @@ def run_lines(exe, lines, timeout=600, env=None, cwd=None):
     return out, r.returncode, r.stderr
 
 
+class LineProc:
+    """Interactive line-protocol process (one request line → one reply line)."""
+
+    def __init__(self, cmd, env=None, cwd=None):
+        if isinstance(cmd, str):
+            cmd = [cmd]
+        self.p = subprocess.Popen(cmd, stdin=subprocess.PIPE, stdout=subprocess.PIPE, stderr=subprocess.DEVNULL,
+                                  text=True, bufsize=1, env=env, cwd=cwd)
+
+    def ask(self, line):
+        self.p.stdin.write(line + "\n")
+        self.p.stdin.flush()
+        return self.p.stdout.readline().rstrip("\n")
+
+    def close(self):
+        try:
+            self.p.stdin.close()
+            self.p.wait(timeout=10)
+        except Exception:
+            self.p.kill()
+
+
 def driver(lines, timeout=600):
     return run_lines(buildlib.driver_path(), lines, timeout)
 
